@@ -17,14 +17,14 @@ import (
 // shortWriter is the Prometheus side of the proxy: an http.ResponseWriter whose
 // Write accepts only a drawn number of bytes per call (at least 1).
 type shortWriter struct {
-	hdr      http.Header
-	code     int
-	body     bytes.Buffer
-	sizes    []int
-	i        int
+	hdr             http.Header
+	code            int
+	body            bytes.Buffer
+	sizes           []int
+	i               int
 	hdrAtFirstWrite http.Header
-	writes   int
-	shorts   int
+	writes          int
+	shorts          int
 }
 
 func (w *shortWriter) Header() http.Header { return w.hdr }
